@@ -9,6 +9,7 @@ import ApolloModel.Proofs.ParserRecursion20
 import ApolloModel.Proofs.ParserRecursion25
 import ApolloModel.Proofs.ParserRecursion31
 import ApolloModel.Proofs.ParserRecursion33
+import ApolloModel.Proofs.ParserRecursion37
 /-
 C04 — Token and recursion limits are enforced exactly.
 
@@ -572,5 +573,51 @@ example : (parse .document (some 20) 1 "{ a { b } }".toList).tokHigh = 12 ∧
     (parse .document (some 20) 1 "{ a { b } }".toList).errors = (parse .document none 1 "{ a { b } }".toList).errors ∧
     (parse .document (some 20) 1 "{ a { b } }".toList).recHigh = (parse .document none 1 "{ a { b } }".toList).recHigh := by
   decide +kernel
+
+/-! ### Both limits set: the missing lemma, proved for sources within the token limit (growth)
+
+A two-run (relational) pass over the whole grammar (Proofs/ParserRecursion34–37): with at most `n` items in the
+source, the run with token limit `n` is, state by state, the run without token limit — the lexer never refuses an
+item, and neither does the CLONED lexer that `peek_n` runs ahead (which obeys the limit too).  This gives `hsame` for
+every entry point when the source is within the limit, and unconditionally for documents (a document parse lexes the
+source to its end, `token_limit_document_high`).  What stays open, exactly: the two standalone entry points on a
+source with MORE than `n` items of which at most `n` were lexed (they stop after the selection set / type).  There the
+step-by-step relation breaks at `peek_n`: its cloned lexer can reach the limit — and return nothing — while the main
+lexer is still below it; the token it looked at is lexed by the main lexer a few steps later, which the
+state-by-state relation cannot use. -/
+
+/-- **A token limit that the source does not exceed is irrelevant**: the whole parse result (tree, errors, both
+    high-water marks, leftover) is the one without token limit — every entry point, every recursion limit. -/
+theorem token_limit_not_exceeded_is_irrelevant (e : Entry) (n r : Nat) (src : Parse.Str) (h : (lex none src).length ≤ n) :
+    parse e (some n) r src = parse e none r src :=
+  Parse.parse_limit_irrelevant e n r src h
+
+/-- **Both limits set, documents: a hit recursion limit is reported** — no side condition. -/
+theorem rec_hit_reported_with_token_limit_document (n r : Nat) (src : Parse.Str)
+    (h : (parse .document (some n) r src).recHigh > r) :
+    ∃ x, x ∈ (parse .document (some n) r src).errors ∧ x.kind = .limit := by
+  refine rec_hit_reported_with_token_limit .document n r src (fun ht => ?_) h
+  have hh := token_limit_document_high n r src
+  have hle : (lex none src).length ≤ n := by omega
+  rw [token_limit_not_exceeded_is_irrelevant .document n r src hle]
+  exact ⟨rfl, rfl⟩
+
+/-- **Both limits set, every entry point**: a hit recursion limit is reported, unless the source has more than `n`
+    items of which at most `n` were lexed (only possible for the two standalone entry points). -/
+theorem rec_hit_reported_with_both_limits (e : Entry) (n r : Nat) (src : Parse.Str)
+    (h : (parse e (some n) r src).recHigh > r) :
+    (∃ x, x ∈ (parse e (some n) r src).errors ∧ x.kind = .limit) ∨
+    ((parse e (some n) r src).tokHigh ≤ n ∧ n < (lex none src).length ∧ e ≠ .document) := by
+  by_cases hle : (lex none src).length ≤ n
+  · left
+    refine rec_hit_reported_with_token_limit e n r src (fun _ => ?_) h
+    rw [token_limit_not_exceeded_is_irrelevant e n r src hle]
+    exact ⟨rfl, rfl⟩
+  · by_cases ht : (parse e (some n) r src).tokHigh > n
+    · exact Or.inl (limit_error_when_token_limit_reached e n r src ht)
+    · by_cases hd : e = .document
+      · subst hd
+        exact Or.inl (rec_hit_reported_with_token_limit_document n r src h)
+      · exact Or.inr ⟨by omega, by omega, hd⟩
 
 end Apollo.C04
